@@ -1,5 +1,5 @@
 (* C09 -- Block1: uploaded blocks are reassembled into exactly the body sent. *)
-From CoapV Require Import Base Header Packet UintOpt BlockValue Encode Response Accessors BlockHandler proofs.P11.
+From CoapV Require Import Base Header Packet UintOpt BlockValue Encode Response Accessors BlockHandler proofs.P11 proofs.P08b proofs.P09b.
 
 (* whatever an abandoned upload left in the buffer: once the buffer agrees with the body up to a block's offset,
    splicing that (full) block in makes it agree up to the next offset -- so blocks delivered in order, each
@@ -45,6 +45,29 @@ Theorem C09_too_large : forall req M st sz r1 rp, message_size_hack (message req
   /\ b_num r1 = 0 /\ b_more r1 = true.
 Proof. exact too_large_answer. Qed.
 Print Assumptions C09_too_large.
+
+(* a whole in-order upload at any block size, on top of ANY stale buffer an abandoned upload left behind: the
+   buffer handling of maybe_handle_request_block1 (splice every block at its offset; the final block ends the body)
+   hands over exactly the body; no block is ever rejected for its jump (each extends the buffer by at most one block) *)
+Theorem C09_upload_delivers_body : forall stale sz body, 0 < sz -> sz <= MAX_RESERVE ->
+  upload (S (length body)) stale sz 0 body = Some body.
+Proof. exact upload_from_scratch. Qed.
+Print Assumptions C09_upload_delivers_body.
+
+(* the same on handle_block1 itself (maybe_handle_request_block1 with its size negotiation, option handling and
+   response building): a run of requests carrying the blocks of a body in order from block 0, whatever the state
+   held before, either reports an error at some block (the documented ones, C09_errors) or answers every block
+   but the last with Ok true (2.31 Continue) and lets the last through (Ok false) with the request payload
+   replaced by exactly the body, the buffer released *)
+Theorem C09_upload_run : forall M szx body reqs st outs st',
+  let sz := 2 ^ (szx + 4) in
+  is_upload sz szx 0 body reqs -> reqs <> [] -> len body <= len reqs * sz ->
+  (length reqs = 1%nat \/ (len reqs - 1) * sz < len body) ->
+  run_block1 M st reqs = (outs, st') -> Forall (fun x => exists b, fst x = Ok b) outs ->
+  exists front lastreq, outs = front ++ [(Ok false, lastreq)] /\ Forall (fun x => fst x = Ok true) front /\
+    payload (message lastreq) = body /\ cached_payload st' = None.
+Proof. exact upload_run_from_scratch. Qed.
+Print Assumptions C09_upload_run.
 
 (* known finding KF_dup_final (D11): after the final block has been handed over the buffer is gone, so a second
    delivery of the final block makes up a zero-filled body and reaches the application again *)
